@@ -390,6 +390,9 @@ _arrays.EXTRA_EXT["numpy.empty_like"] = _np_empty_like
 def _np_array_seq(models, it, v, kw, node):
     if isinstance(v, Ref):
         o = it.run.obj(v)
+        if isinstance(o, HList) and o.items and all(isinstance(x, Ref) and isinstance(it.run.obj(x), HList) for x in o.items):
+            # a small literal matrix: list of row lists (copied)
+            return it.run.alloc(HList([it.run.alloc(HList(it.run.obj(x).items)) for x in o.items]))
         if isinstance(o, HList) and o.items and all(is_num(x) for x in o.items):
             o = it.list_to_seq(o)
         if isinstance(o, HSeq) and o.elem in ("Int", "Real"):
